@@ -146,10 +146,27 @@ fn history(ctx: &Ctx, rep: &mut Report, case_seed: u64, variant: u64, always_flu
 	let completed: Arc<Vec<AtomicU64>> = Arc::new((0..n_owners).map(|_| AtomicU64::new(0)).collect());
 	let stop = Arc::new(AtomicBool::new(false));
 	let duration = Duration::from_millis(ctx.tier.pick(rng.range(1500, 2500), rng.range(2500, 5000)));
-	delays::install(case_seed, rng.range(20, 250), rng.range(200, 2500), u64::MAX);
+	// Two flavours. "pipeline windows": seeded delays at the hand-over sites of the write pipeline
+	// (commits pile up, readers meet data at every stage). "reader windows" (every third
+	// history): the pipeline runs at full speed behind paced clients - a commit is logged, and
+	// the slots it frees are released, within microseconds of the call - while READERS are held
+	// between their index lookup and their value fetch, the window in which only the
+	// commit-overlay lock keeps the slot they are about to read alive.
+	let reader_windows = variant % 3 == 1;
+	if reader_windows {
+		delays::install(case_seed, 0, 0, 0);
+		let ppm = std::env::var("PDBV_READ_PPM").ok().and_then(|s| s.parse().ok()).unwrap_or_else(|| rng.range(3000, 50_000));
+		delays::slow_readers(ppm, rng.range(100, 600));
+		rep.count("histories_reader_windows", 1);
+	} else {
+		delays::install(case_seed, rng.range(20, 250), rng.range(200, 2500), u64::MAX);
+		if variant % 4 != 3 {
+			delays::slow_readers(rng.range(200, 3000), rng.range(100, 1500));
+		}
+	}
 	// one hand-over window is held open in every history (readers run through it many times):
 	// rare sites (reindex record, index drop) long, per-commit sites short
-	match (variant / 2) % 7 {
+	match if reader_windows { 0 } else { (variant / 2) % 7 } {
 		1 => delays::slow_site(2, rng.range(100, 600)),    // plan made, record not yet published
 		2 => delays::slow_site(3, rng.range(100, 600)),    // record published, commit overlay not yet cleaned
 		3 => delays::slow_site(5, rng.range(100, 600)),    // tables written, log overlay not yet cleaned
@@ -168,6 +185,8 @@ fn history(ctx: &Ctx, rep: &mut Report, case_seed: u64, variant: u64, always_flu
 		let completed = completed.clone();
 		let stop = stop.clone();
 		let mut r = rng.derive(100 + o as u64);
+		let paced = variant % 3 == 1;
+		let pace_us = 100 + (case_seed % 900);
 		owner_handles.push(std::thread::spawn(move || {
 			let mut log = OwnerLog { writes: BTreeMap::new(), versions: 0, class_moves: 0 };
 			let mut last_class: BTreeMap<(u8, u16), usize> = BTreeMap::new();
@@ -216,7 +235,12 @@ fn history(ctx: &Ctx, rep: &mut Report, case_seed: u64, variant: u64, always_flu
 					break
 				}
 				completed[o].store(v, Ordering::SeqCst);
-				if r.chance(1, 50) {
+				if paced {
+					// a client slower than the workers: the queue is (nearly) empty when the next
+					// commit arrives, so it is logged - and the slots it frees are released -
+					// within microseconds of the call, while readers are in the middle of a lookup
+					std::thread::sleep(Duration::from_micros(r.range(30, pace_us)));
+				} else if r.chance(1, 50) {
 					std::thread::sleep(Duration::from_micros(r.range(50, 2000)));
 				}
 			}
